@@ -113,7 +113,7 @@ class Server:
 
     # ---- client
     def connect(self, timeout=5.0):
-        s = socket.socket()
+        s = socket.socket(socket.AF_INET6 if ":" in self.ip else socket.AF_INET)
         s.settimeout(timeout)
         s.connect((self.ip, self.port))
         return s
